@@ -53,7 +53,8 @@ def _vec_cases(draw):
     tg = draw(st.lists(gen.target_values(pops), min_size=n, max_size=n))
     return dict(s=s, thr=thr, tg=dict(shape=list(shape), flat=tg), cfg=draw(gen.CONFIG),
                 scalar_kind=draw(st.sampled_from(["py", "np", "0d", "int"])),
-                layout=draw(st.sampled_from(LAYOUTS)))
+                layout=draw(st.sampled_from(LAYOUTS)),
+                thr_dtype=draw(st.sampled_from([None, None, "float32", "float16"])))
 
 
 def _scalar(x, kind):
@@ -75,7 +76,14 @@ def check_vectorised(case):
     neg = np.asarray(s["neg"], dtype=_dt(s["mode"]))
     o = Scores(pos, neg, nb_easy_pos=s["ep"], nb_easy_neg=s["en"], score_class=sc, equal_class=ec)
     X = tuple(case["thr"]["shape"])
-    thr = as_layout(gen.np_array(case["thr"]["flat"], X), case.get("layout", "C"))
+    thr = gen.np_array(case["thr"]["flat"], X)
+    if case.get("thr_dtype"):
+        # thresholds held in a narrower float type than the scores; the scalar calls below get the
+        # value each element holds
+        with np.errstate(over="ignore"):
+            thr = thr.astype(case["thr_dtype"])
+        case = dict(case, thr=dict(case["thr"], flat=[float(x) for x in thr.reshape(-1).tolist()]))
+    thr = as_layout(thr, case.get("layout", "C"))
     thr0 = thr.copy()
     kind = case["scalar_kind"]
     # confusion matrices
@@ -135,7 +143,52 @@ def check_vectorised(case):
     require(np.array_equal(o.pos, np.sort(pos)) and np.array_equal(o.neg, np.sort(neg)),
             "vec:mutated-object", "")
     labels = [f"rank:{len(X)}"] + (["size0-axis"] if 0 in X or 0 in Y else [])
+    if case.get("thr_dtype"):
+        labels.append(f"thresholds:{case['thr_dtype']}")
     return dict(nontrivial=len(X) >= 2 or 0 in X or len(Y) >= 2 or 0 in Y, labels=labels)
+
+
+# ------------------------------------------------------------------ clause: long vectors
+def _long_cases(tier):
+    sizes = [1024, 1025, 1500, 2500, 5000] if tier == "quick" else [1023, 1024, 1025, 1500, 2048, 2500, 4097, 5000, 20000]
+    for T in sizes:
+        for k, cfg in enumerate((["pos", "pos"], ["neg", "pos"], ["pos", "neg"])):
+            yield dict(T=T, cfg=cfg, k=k)
+
+
+def check_long(case):
+    """Target / threshold vectors with thousands of entries: element i still equals the call on
+    element i alone."""
+    from score_analysis import Scores
+
+    T, (sc, ec), k = case["T"], case["cfg"], case["k"]
+    pos = [0.25 * ((7 * i + k) % 23) for i in range(11)]
+    neg = [0.25 * ((5 * i + 2 * k) % 19) - 1.0 for i in range(9)]
+    o = Scores(pos, neg, nb_easy_pos=k, nb_easy_neg=2 * k, score_class=sc, equal_class=ec)
+    tg = np.asarray([((37 * i + 11 * k) % 1009) / 1008 for i in range(T)])
+    thr = np.asarray([(((53 * i + k) % 997) / 997) * 7.0 - 1.5 for i in range(T)])
+    cm = o.cm(thr).matrix
+    require(cm.shape == (T, 2, 2), "vec:cm-shape", str(cm.shape))
+    fnr = np.asarray(o.fnr(thr))
+    t_fpr = np.asarray(o.threshold_at_fpr(tg))
+    for i in list(range(0, T, 7)) + [T - 1]:
+        require(np.array_equal(cm[i], o.cm(float(thr[i])).matrix), "vec:cm-elementwise", f"T={T} i={i}")
+        require(fnr[i] == o.fnr(float(thr[i])), "vec:rate-elementwise", f"T={T} i={i}")
+        require(t_fpr[i] == o.threshold_at_fpr(float(tg[i])), "vec:thr-elementwise", f"T={T} i={i}")
+    for mname, metric in (("fpr", "fpr"), ("frr", "frr"),
+                          ("callable", lambda s_, t_: np.abs(s_.fnr(t_) - s_.fpr(t_)))):
+        for pts in (None, 7):
+            res = o.threshold_at_metric(tg, metric, pts)
+            require(isinstance(res, list) and len(res) == T, "vec:tam-entries",
+                    f"threshold_at_metric with {T} targets: {type(res).__name__} of length "
+                    f"{len(res) if hasattr(res, '__len__') else '?'}")
+            for i in range(T):
+                one = o.threshold_at_metric(float(tg[i]), metric, pts)
+                require(np.array_equal(np.ravel(res[i]), np.ravel(one)), "vec:tam-elementwise",
+                        lambda: f"threshold_at_metric(<{T} targets>, {mname}, {pts})[{i}] = "
+                                f"{np.ravel(res[i]).tolist()} but the call on {tg[i]!r} alone gives "
+                                f"{np.ravel(one).tolist()}")
+    return dict(nontrivial=True, labels=[f"T:{T}"])
 
 
 # ------------------------------------------------------------------ clause: pointwise shape
@@ -521,6 +574,8 @@ PROP = Prop(
     clauses=[
         Clause("vectorised", check_vectorised, strategy=_vec_cases(), quick=250, thorough=4800,
                quick_shards=3, min_nontrivial=50, doc="shapes, elementwise = scalar, scalars, aliases"),
+        Clause("long_vectors", check_long, kind="enum", cases=_long_cases, quick_shards=8, shards=16,
+               min_nontrivial=10, doc="1e3-2e4 targets / thresholds per call vs the scalar calls"),
         Clause("pointwise_shape", check_pointwise_shape, strategy=_pw_cases(), quick=300,
                thorough=6000, shards=4, min_nontrivial=50, doc="pointwise_cm shape incl. size-0 axes"),
         Clause("history", check_history, kind="machine", machine=make_machine, quick=80,
@@ -531,4 +586,4 @@ PROP = Prop(
                  "of rates and thresholds being plain scalars"],
 )
 
-RULE_EXTRA = ('Fortran-ordered / non-contiguous threshold, target, score and label arrays; a caller-owned work buffer overwritten in place between queries (rule rate_buf).')
+RULE_EXTRA = ('float32 / float16 threshold arrays against float64 scores; clause long_vectors: 1e3-2e4 targets / thresholds per call; Fortran-ordered / non-contiguous threshold, target, score and label arrays; a caller-owned work buffer overwritten in place between queries (rule rate_buf).')
